@@ -524,3 +524,10 @@ func coAssigned(r *Report, rule string, primary *types.Var, partners []*types.Va
 	}
 	return n
 }
+
+func constantInt64(c *types.Const) (int64, bool) {
+	if c.Val().Kind() != constant.Int {
+		return 0, false
+	}
+	return constant.Int64Val(c.Val())
+}
